@@ -239,6 +239,8 @@ def _check_compositions(deck, f, fail):
         rho = float(m.group(2).lower().replace('d', 'e'))
         want_names = [_nuclide(z) for z, _ in card]
         got_names = [n for n, _ in c['entries']]
+        if rho > 0 and card[0][1] < 0:
+            continue      # mass fractions with an atom density: documented as unsupported (warning), not claimed
         if got_names != want_names:
             fail('C10', 'nuclides-differ-from-the-material-card', f'{name}: {got_names} vs card {want_names}')
             continue
